@@ -12,7 +12,7 @@ import ast, builtins, copy, operator, types, collections, inspect, textwrap
 import z3
 from . import api, src
 from .core import (Unsupported, PathEnd, ReturnSig, BreakSig, ContinueSig, PyRaise, Obligation, Path)
-from .zsorts import ZS, VStruct, VOpt, VBox, VObj, VAbs
+from .zsorts import ZS, VStruct, VOpt, VBox, VObj, VAbs, VMatch
 
 MUTATORS = {'append', 'appendleft', 'extend', 'extendleft', 'clear', 'add', 'insert', 'pop', 'popleft',
             'remove', 'discard', 'update', 'sort', 'reverse', 'setdefault'}
@@ -60,7 +60,7 @@ def shared_zs():
 
 
 def is_sym(v):
-    return z3.is_expr(v) or isinstance(v, (VStruct, VOpt, VBox, VObj, VAbs))
+    return z3.is_expr(v) or isinstance(v, (VStruct, VOpt, VBox, VObj, VAbs, VMatch))
 
 
 def contains_sym(v):
@@ -128,12 +128,20 @@ class Interp:
         if isinstance(v, VBox):
             if v.kind in ('list', 'deque'):
                 return z3.Length(v.term) > 0
-            raise Unsupported('truth of set/dict box')
+            if v.kind == 'set':
+                if v.term is None:
+                    return False
+                return z3.Not(v.term == z3.K(v.term.sort().domain(), False))
+            raise Unsupported('truth of dict box')
         if type(v).__name__ == 'PyList':
             return len(v.items) > 0
         if type(v).__name__ == 'PyDict':
             return len(v.d) > 0
+        if isinstance(v, VMatch):
+            return True
         if isinstance(v, (VStruct, VObj, VAbs)):
+            if isinstance(v, VStruct) and v.pycls is not None and issubclass(v.pycls, tuple) and hasattr(v.pycls, '_fields'):
+                return len(v.pycls._fields) > 0
             if isinstance(v, VStruct) and v.pycls is not None and (hasattr(v.pycls, '__bool__') or hasattr(v.pycls, '__len__')):
                 raise Unsupported('truth of object with __bool__/__len__')
             return True
@@ -197,7 +205,14 @@ class Interp:
         if isinstance(a, VAbs) and isinstance(b, VAbs):
             return VAbs(z3.If(c, a.term, b.term), a.sort)
         if isinstance(a, VBox) and isinstance(b, VBox) and a.kind == b.kind:
-            return VBox(a.kind, z3.If(c, a.term, b.term), a.esort)
+            ta, tb = a.term, b.term
+            if ta is None and tb is None:
+                return a
+            if ta is None:
+                ta = z3.K(tb.sort().domain(), False)
+            if tb is None:
+                tb = z3.K(ta.sort().domain(), False)
+            return VBox(a.kind, z3.If(c, ta, tb), a.esort)
         if not is_sym(a) and not is_sym(b):
             if type(a) is type(b) and a == b:
                 return a
@@ -289,6 +304,12 @@ class Interp:
             if isinstance(a, VBox) and a.kind == 'set':
                 if not isinstance(b, VBox):
                     raise Unsupported('set == non-set')
+                if ta is None and tb is None:
+                    return True
+                if ta is None:
+                    ta = z3.K(tb.sort().domain(), False)
+                if tb is None:
+                    tb = z3.K(ta.sort().domain(), False)
                 return ta == tb
             return self.eq(ta, tb)
         if isinstance(a, tuple) and isinstance(b, tuple) and (contains_sym(a) or contains_sym(b)):
@@ -315,6 +336,10 @@ class Interp:
         if not (isinstance(a, VStruct) and isinstance(b, VStruct)):
             return False
         cls = a.pycls
+        if cls is not None and issubclass(cls, tuple) and hasattr(cls, '_fields'):
+            if a.pycls is not b.pycls:
+                return False
+            return self.land(*[self.eq(a.f[n], b.f[n]) for n in cls._fields])
         if cls is not None and getattr(cls, '__dataclass_params__', None) is not None and cls.__dataclass_params__.eq:
             if a.pycls is not b.pycls:
                 return False
